@@ -51,3 +51,41 @@ package golang
 //@     invariant [tab] actTab != nil && actTab >= old(alloc()) && len(actTab.Rows) == len(itemSets.sets) && arr(actTab.Rows) >= old(alloc()) && conflicts != nil && conflicts >= old(alloc())
 //@     invariant [conflicts] all(n, 0, range_i1, has(conflicts, n) == stateHasConflict(itemSets.sets[n], tokMap))
 //@     invariant [only] forall(n, imp(has(conflicts, n), 0 <= n && n < range_i1))
+//@
+//@ package symbols
+//@ func symbols.(*Symbols).NumNTSymbols
+//@   nobody
+//@   # proved in internal/parser/symbols
+//@   ensures [value] result == len(this.ntTypeMap)
+//@   assigns nothing
+//@ func symbols.(*Symbols).NTList
+//@   nobody
+//@   # proved in internal/parser/symbols
+//@   ensures [value] result == this.ntTypeMap
+//@   assigns nothing
+//@ package golang
+//@
+//@ # C02: the goto row of a state handed to the template: one entry per nonterminal, in numbering order, holding the
+//@ # state's transition on that nonterminal (-1 where there is none)
+//@ func getGotoRowData
+//@   prop C02 C10
+//@   requires [input] itemSet != nil && sym != nil
+//@   ensures [row] len(result) == len(sym.ntTypeMap) && arr(result) >= old(alloc())
+//@   ensures [entries] all(i, 0, len(sym.ntTypeMap), result[i].NT == sym.ntTypeMap[i] && result[i].State == ite(has(itemSet.Transitions, sym.ntTypeMap[i]), itemSet.Transitions[sym.ntTypeMap[i]], -1))
+//@   assigns nothing
+//@   loop 1
+//@     invariant [row] len(row) == len(sym.ntTypeMap) && arr(row) >= old(alloc())
+//@     invariant [entries] all(i, 0, range_i1, row[i].NT == sym.ntTypeMap[i] && row[i].State == ite(has(itemSet.Transitions, sym.ntTypeMap[i]), itemSet.Transitions[sym.ntTypeMap[i]], -1))
+//@   loop 2
+//@     invariant [row] len(row) == len(sym.ntTypeMap) && arr(row) >= old(alloc())
+//@     invariant [entries] all(i, 0, len(sym.ntTypeMap), row[i].NT == sym.ntTypeMap[i] && row[i].State == ite(has(itemSet.Transitions, sym.ntTypeMap[i]), itemSet.Transitions[sym.ntTypeMap[i]], -1))
+//@
+//@ func getGotoTableData
+//@   prop C02 C10
+//@   requires [input] itemSets != nil && sym != nil && all(n, 0, len(itemSets.sets), itemSets.sets[n] != nil)
+//@   ensures [rows] result != nil && result.NumNTSymbols == len(sym.ntTypeMap) && len(result.Rows) == len(itemSets.sets)
+//@   ensures [entries] all(n, 0, len(itemSets.sets), len(result.Rows[n]) == len(sym.ntTypeMap) && all(i, 0, len(sym.ntTypeMap), result.Rows[n][i].State == ite(has(itemSets.sets[n].Transitions, sym.ntTypeMap[i]), itemSets.sets[n].Transitions[sym.ntTypeMap[i]], -1)))
+//@   assigns nothing
+//@   loop 1
+//@     invariant [data] data != nil && data >= old(alloc()) && len(data.Rows) == len(itemSets.sets) && arr(data.Rows) >= old(alloc()) && data.NumNTSymbols == len(sym.ntTypeMap)
+//@     invariant [entries] all(n, 0, range_i1, len(data.Rows[n]) == len(sym.ntTypeMap) && all(i, 0, len(sym.ntTypeMap), data.Rows[n][i].State == ite(has(itemSets.sets[n].Transitions, sym.ntTypeMap[i]), itemSets.sets[n].Transitions[sym.ntTypeMap[i]], -1)))
